@@ -3,6 +3,7 @@
   Property theorems about `N2V.Depfile` (model of depfile.rs and task.rs::read_depfile).
 -/
 import N2V.Model.Depfile
+import N2V.Lemmas.DepfileTotal
 namespace N2V.C15
 open N2V N2V.Depfile
 
@@ -113,5 +114,17 @@ theorem flatten_count (l : Entries) :
 
 /-- Non-vacuity / regression for F11: `a: x` then `a: y` yields both. -/
 example : flatten (record [([97], [[120]]), ([97], [[121]])]) = [[120], [121]] := by decide
+
+
+/-- **Every depfile is either read or rejected with a diagnostic** (byte level, all inputs): the
+    model of `depfile::parse` — scanner with its NUL sentinel, `back` including its `\r\n` quirk,
+    line counter, every loop — returns entries or a parse error with an offset for EVERY byte
+    string; the outcomes "read outside the buffer", "stepped back before the start", "line counter
+    wrapped" and "out of fuel" (= a loop that does not advance) are unreachable
+    (Lemmas/Scanner: `read_ok`, `back_ok`; Lemmas/DepfileTotal). -/
+theorem depfile_parse_total (text : Bytes) : match Depfile.parse text with
+    | .ok _ _ => True
+    | .perr _ _ => True
+    | .bad _ => False := Depfile.parse_total text
 
 end N2V.C15
